@@ -202,6 +202,44 @@ def check(res):
             out.append(V("close-run-uid", f"close_run answered {r!r}"))
         elif cmd == "subscribe" and not isinstance(r, int):
             out.append(V("subscribe-token", f"subscribe answered {_short(r)}"))
+    # --- (2b) the answer to a 'wait' is about the group as the plan named it: when wait(g) answers, the status
+    # returned by the most recent execution of every message the plan yielded with group=g is done (not asserted
+    # when a status of the group failed - the wait then ends early and the failure is reported - or with a timeout)
+    first_kw = {}
+    for e in v.of("msg"):
+        first_kw.setdefault(e.d["mid"], e.d.get("kw") or {})
+    status_done = {}  # sid -> seq at which the status finished
+    failed_any = False
+    for e in v.evs:
+        if e.kind == "status":
+            status_done.setdefault(e.d["sid"], e.seq)
+            failed_any = failed_any or not e.d["ok"]
+    if not failed_any:
+        for w in v.of("cmd"):
+            if w.d["cmd"] != "wait" or w.d["end"] != "ok":
+                continue
+            kw = first_kw.get(w.d["mid"], {})
+            g = kw.get("group")
+            if g is None or kw.get("timeout") is not None or kw.get("error_on_timeout") is False:
+                continue
+            for mid, kw2 in first_kw.items():
+                if cmd_of.get(mid) not in STATUS_CMDS or kw2.get("group") != g:
+                    continue
+                execs = [(s_, x) for s_, x in ctx.cmd_results.get(mid, []) if s_ < w.seq and isinstance(x, SimStatus)]
+                if not execs:
+                    continue
+                s_, st = execs[-1]
+                res.notes["waits_checked_against_status"] = res.notes.get("waits_checked_against_status", 0) + 1
+                fin = status_done.get(st.sid)
+                if fin is None or fin > w.seq:
+                    out.append(
+                        V(
+                            "wait-answered-while-group-busy",
+                            f"wait(group={g!r}) answered at #{w.seq} while the status of the latest {cmd_of[mid]}({obj_of[mid]}, group={g!r}) (message #{mid}, executed at #{s_}) was not done (finished at #{fin})",
+                            cmd=cmd_of[mid],
+                        )
+                    )
+                    break
     # --- (3) what RE(...) returns
     for inv in v.invocations:
         last = inv.calls[-1]
